@@ -1313,9 +1313,11 @@ class BdrSwitch(Actuator, RelayDemand):  # BDR (13):
         # TODO: use self._parent?
         if self._child_id in DOMAIN_TYPE_MAP:
             return DOMAIN_TYPE_MAP[self._child_id]
-        elif self._parent and isinstance(self._parent, Zone):
-            # TODO: remove need for isinstance
-            return self._parent.heating_type
+        elif self._parent:
+            from ramses_rf.system import Zone  # is only imported above if TYPE_CHECKING
+
+            if isinstance(self._parent, Zone):  # TODO: remove need for isinstance
+                return self._parent.heating_type
 
         # if Code._3B00 in _msgs and _msgs[Code._3B00].verb == I_:
         #     self._is_tpi = True
